@@ -6,7 +6,7 @@
    equals the field length; match-mapping: value among the mapped values); no-compression always.
    Only statements; proofs in theories/SchcRules.v. *)
 From Coq Require Import ZArith List Bool.
-From MS Require Import PyBase Buffer Bits BufferAbs Schc SchcSpec SchcRules SchcBytes SchcRefine.
+From MS Require Import PyBase Buffer Bits BufferAbs Schc SchcSpec SchcRules SchcBytes SchcRefine Compute ParserBytes ParserRefine ComputeBytes ComputeRefine ManagerBytes ManagerRefine.
 Import ListNotations.
 Open Scope Z_scope.
 
@@ -34,8 +34,23 @@ Example c04_ex :
   field_match f long = Ok false /\ field_match f ok = Ok true.
 Proof. vm_compute. split; reflexivity. Qed.
 
+(* the matcher written on byte-level Buffers (ManagerBytes.v: Ruler.match_packet_descriptor with the Buffer comparisons the code
+   performs) yields the rules whose denotations the bit-level matcher yields, in the same order, and ends the same way *)
+Theorem c04_match_bytes rules pd : canon_pdesc pd -> Forall canon_rule rules ->
+  map (abs_rule abs) (gen_list (bmatch_packet_descriptor rules pd)) =
+    gen_list (match_packet_descriptor (map (abs_rule abs) rules) (abs_pdesc abs pd)) /\
+  gen_raises (bmatch_packet_descriptor rules pd) =
+    gen_raises (match_packet_descriptor (map (abs_rule abs) rules) (abs_pdesc abs pd)) /\
+  incl (gen_list (bmatch_packet_descriptor rules pd)) rules.
+Proof. exact (bmatch_packet_descriptor_lists rules pd). Qed.
+Theorem c04_rule_matches_bytes pd r : canon_pdesc pd -> canon_rule r ->
+  brule_matches pd r = rule_matches (abs_pdesc abs pd) (abs_rule abs r).
+Proof. exact (brule_matches_refines pd r). Qed.
+
 Print Assumptions c04_match.
 Print Assumptions c04_rule.
 Print Assumptions c04_field.
 Print Assumptions c04_no_compression.
 Print Assumptions c04_field_bytes.
+Print Assumptions c04_match_bytes.
+Print Assumptions c04_rule_matches_bytes.
